@@ -28,6 +28,24 @@ type channelSub struct {
 	id     uint64
 	value  chan Message
 	events []Name
+	// leaving is closed when the subscriber has asked to be unsubscribed. Its channel may be
+	// full and nobody may read it any more: from then on nothing is delivered to it.
+	leaving     chan struct{}
+	leavingOnce sync.Once
+}
+
+// deliver hands the message to the subscriber. It blocks while the subscriber's channel is full,
+// unless the subscriber has asked to be unsubscribed.
+func (s *channelSub) deliver(msg Message) {
+	select {
+	case <-s.leaving:
+		return
+	default:
+	}
+	select {
+	case s.value <- msg:
+	case <-s.leaving:
+	}
 }
 
 // Message returns the message channel for the subscription.
@@ -98,8 +116,9 @@ func (b *channelBus) Subscribe(events ...Name) (Subscription, error) {
 	}
 	sub := &channelSub{
 		id:     b.subID.Add(1),
-		value:  make(chan Message, b.eventBufferSize),
-		events: events,
+		value:   make(chan Message, b.eventBufferSize),
+		events:  events,
+		leaving: make(chan struct{}),
 	}
 	b.commandChannel <- subscribeCommand(sub)
 	return sub, nil
@@ -119,6 +138,9 @@ func (b *channelBus) Unsubscribe(sub Subscription) {
 	if !ok {
 		panic("failed to unsubscribe: invalid subscription type")
 	}
+	// A publish that is blocked on this subscriber's full channel sits in front of the unsubscribe
+	// command: let it go, or neither would ever be handled.
+	s.leavingOnce.Do(func() { close(s.leaving) })
 	b.commandChannel <- unsubscribeCommand(s)
 }
 
@@ -168,13 +190,13 @@ func (b *channelBus) handleChannel() {
 
 		case publishCommand:
 			for id := range b.events[WildCardName] {
-				b.subs[id].value <- Message(t)
+				b.subs[id].deliver(Message(t))
 			}
 			for id := range b.events[t.Name] {
 				if _, ok := b.events[WildCardName][id]; ok {
 					continue
 				}
-				b.subs[id].value <- Message(t)
+				b.subs[id].deliver(Message(t))
 			}
 		}
 	}
